@@ -3,22 +3,17 @@
 set -e
 cd "$(dirname "$0")/harness"
 export CARGO_NET_OFFLINE=true
-CRATES="$(sed -n 's/^ *\(C[0-9]*[|C0-9]*\)) GROUP=\([a-z]*\) ;;$/\2/p' ../check | sort -u)"
-for g in $CRATES; do
-  # only groups whose check is registered in MANIFEST.json need to exist at setup time
-  if grep -q "\"quick_cmd\": \"./check C" ../MANIFEST.json; then :; fi
-done
 REG="$(python3 - <<'PY'
 import json,re
 m=json.load(open('../MANIFEST.json'))
 ids=[c['property_id'] for c in m['checks']]
-chk=open('../check').read()
-groups=set()
-for line in chk.splitlines():
-    mm=re.match(r'\s*([C0-9|]+)\) GROUP=([a-z]+) ;;',line)
+groups=set(['engine'])
+for line in open('../check'):
+    mm=re.match(r'\s*([C0-9|]+)\) GROUPS="([a-z ]+)" ;;',line)
     if mm:
         for i in mm.group(1).split('|'):
-            if i in ids: groups.add(mm.group(2))
+            if i in ids:
+                groups.update(mm.group(2).split())
 print(' '.join('-p pvc-'+g for g in sorted(groups)))
 PY
 )"
